@@ -22,7 +22,7 @@ inductive Op
   | recSug (k : Key2) (vS vE vT vD : Nat) (f : Faults) (env : SugEnv)
   | recTrial (k : Key2) (vT : Nat) (f : Faults)
   | job (k : Key2) (succeeded : Bool)
-  | metric (trial : String) (text : String) (key : Option Int)
+  | metric (trial : String) (text : String) (key : Option Int) (name : String)
   | earlyStop (k : Key2)
   | deployReady (k : Key2)
   | editMax (k : Key2) (n : Int)
@@ -82,8 +82,8 @@ def stepWorld (s : Sim) (op : Op) : World × String :=
     match findJob s.cur k with
     | none => (s.cur, "ok=0")
     | some _ => ({ s.cur with jobs := s.cur.jobs.map (fun j => if j.key = k then { j with state := jobAfter j.state ok } else j) }, "ok=1")
-  | .metric t text key =>
-    let e : Metrics.Entry := { metric := objMetric, text := text, key := key, ts := some (now : Int) }
+  | .metric t text key nm =>
+    let e : Metrics.Entry := { metric := nm, text := text, key := key, ts := some (now : Int) }
     let w := s.cur
     let w' := if w.db.any (fun p => p.1 = t) then { w with db := w.db.map (fun p => if p.1 = t then (p.1, p.2 ++ [e]) else p) }
               else { w with db := w.db ++ [(t, [e])] }
